@@ -273,6 +273,9 @@ func (d c16) executeGit(c *core.Case) (res *core.Result) {
 					n++
 					if n-1 == k && !fired {
 						fired = true
+						if os.Getenv("VERIF_DEBUG") != "" {
+							fmt.Fprintf(os.Stderr, "DEBUG fault at call %d: %v\n", k, args)
+						}
 						return fmt.Errorf("injected: git %s failed", args[0])
 					}
 					return nil
